@@ -29,7 +29,7 @@ SHAPES = {
 }
 
 
-def q_bar(sig, shape, factor, key, symden):
+def q_bar(sig, shape, factor, key, symden, stale_times=False):
     num, den = sig
     cap = num * 24 * 4 // den
 
@@ -50,6 +50,11 @@ def q_bar(sig, shape, factor, key, symden):
                 spec.append(el)
         b = build_rel(ctx, spec, pitch=(60, 61), chan=(0, 0), wait=(1, factor * cap))
         ctx.assume(distinct_keys_or_disjoint(ctx, b.notes))
+        if stale_times:
+            # relative messages taken over from an absolute view keep a (meaningless) time value
+            for i_, m_ in enumerate(b.msgs):
+                if m_.message_type != WAIT:
+                    m_.time = ctx.int(f"stale{i_}", 0, 2 * cap)
         seq = rel_sequence(b.msgs)
         ok, res = call(Bar, seq, num, den, key)
         too_long = b.total > cap
@@ -84,7 +89,7 @@ def q_bar(sig, shape, factor, key, symden):
                                         cp.key_signature == key, cp.sequence is not bar.sequence))
             ctx.must("copy_library_eq", cp.sequence == bar.sequence)
         return ["accepted", obs_rel(msgs), da]
-    return Query(f"{num}-{den}/{shape}/x{factor}/key{key.value if key else None}{'/symden' if symden else ''}", fn,
+    return Query(f"{num}-{den}/{shape}/x{factor}/key{key.value if key else None}{'/symden' if symden else ''}{'/stale' if stale_times else ''}", fn,
                  [], desc=f"Bar({shape}, {num}/{den})")
 
 
@@ -95,6 +100,9 @@ def queries(tier, seed):
         for j, s in enumerate(shapes):
             key = None if (i + j) % 2 == 0 else KEYS[(seed + i * 7 + j) % 15]
             qs.append(q_bar(sig, s, 2 if tier == "quick" else 3, key, False))
+    for sig in ((4, 4), (6, 8), (3, 8)):
+        qs.append(q_bar(sig, "n1", 2, None, False, stale_times=True))
+        qs.append(q_bar(sig, "ts_n1", 2, None, False, stale_times=True))
     for sig in SIGS:
         # signature events whose denominator is symbolic in {2,4,8} as well
         qs.append(q_bar(sig, "ts_ts", 2, KEYS[4], True))
